@@ -1,4 +1,46 @@
+/-
+  C13 tie: the character classes and length limits of the model's `validPartM` / `validPartN` are the ones
+  the working tree's `isValidPart` (types/model and server/internal/internal/names) implement.  The table
+  is regenerated on every run by executing the real functions on every 1-byte string, every 2-byte
+  string (checked to be exactly first-set × rest-set, and position-independent) and on `a`^n for
+  n ≤ 1200 (see vlib/checks/c13.py, TestVerifC13Table in both packages).
+-/
 import OllamaVerif.Model.Names
 import OllamaVerif.Generated.C13_NameTable
+
 namespace OllamaVerif.Tie.C13
+open OllamaVerif.Names OllamaVerif.Generated.C13
+
+def bytesWhere (p : UInt8 → Bool) : List Nat := (List.range 256).filter fun b => p (UInt8.ofNat b)
+
+/-- first-byte sets: exactly `isAlphanumericOrUnderscore`, for every kind of both packages -/
+theorem first_sets_match :
+    firstM = (List.range 5).map (fun k => (k, bytesWhere isAlnumU)) ∧
+    firstN = (List.range 4).map (fun k => (k, bytesWhere isAlnumU)) := by
+  constructor <;> decide +kernel
+
+/-- rest-byte sets: exactly the model's `restOk` per kind -/
+theorem rest_sets_match :
+    restM = (List.range 5).map (fun k => (k, bytesWhere (restOk (Kind.ofIdx k)))) ∧
+    restN = (List.range 4).map (fun k => (k, bytesWhere (restOk (Kind.ofIdx k)))) := by
+  constructor <;> decide +kernel
+
+/-- length limits: [1, maxLen] in types/model, [0, maxLen] in names; accepted lengths are an interval and the
+    2-byte acceptance relation is the product of the two sets -/
+theorem length_limits_match :
+    lenM = (List.range 5).map (fun k => (k, 1, maxLen (Kind.ofIdx k), 1, 1)) ∧
+    lenN = (List.range 4).map (fun k => (k, 0, maxLen (Kind.ofIdx k), 1, 1)) := by
+  constructor <;> decide
+
+/-- no byte the real code accepts anywhere in a part is `/`, `\`, NUL or `@`; none accepted first is `.` -/
+theorem accepted_bytes_safe :
+    (restM ++ restN ++ firstM ++ firstN).all (fun e => e.2.all fun b => b != 47 && b != 92 && b != 0 && b != 64) = true ∧
+    (firstM ++ firstN).all (fun e => e.2.all fun b => b != 46) = true := by
+  constructor <;> decide +kernel
+
+/-- `:` is accepted only inside hosts (and digests) -/
+theorem colon_only_in_hosts :
+    (restM ++ restN).all (fun e => e.1 == 0 || e.1 == 4 || e.2.all fun b => b != 58) = true := by
+  decide +kernel
+
 end OllamaVerif.Tie.C13
